@@ -5,11 +5,11 @@ CONSTANTS
   TokChain <- Seq1
   TokContract <- Seq1
   TokDenom <- Seq1
-  Amounts = {1, 2, 3}
-  InitBal = 4
+  Amounts = {2, 5}
+  InitBal = 12
   BatchEvery = 50
   TimeoutBlocks = 300
-  Jumps = {1, 57599}
+  Jumps = {57599, 57600}
   Period = 57600
   TaxRates <- RateHalf
   Limits = {3}
